@@ -50,6 +50,19 @@ func TestVerifC19b(t *testing.T) {
 	}
 	variants = append(variants, variant{"link-key-32-junk", func(g *protocoltypes.Group) { g.LinkKey = bytes.Repeat([]byte{1}, 32) }},
 		variant{"sign-pub-32-junk", func(g *protocoltypes.Group) { g.SignPub = bytes.Repeat([]byte{0xff}, 32) }})
+	// invitations whose secret has another length than a key seed, correctly signed by the group key (anybody can
+	// make one for a group key of their own): they verify, so they are joined
+	for _, n := range []int{1, 5, 31, 33, 64} {
+		n := n
+		variants = append(variants, variant{fmt.Sprintf("signed-secret-%d", n), func(g *protocoltypes.Group) {
+			gsk := vDetKey(seed, "group/odd-secret/"+fmt.Sprint(n))
+			pk, _ := gsk.GetPublic().Raw()
+			secret := bytes.Repeat([]byte{0x5A}, n)
+			sig, err := gsk.Sign(secret)
+			vmust(err)
+			g.PublicKey, g.Secret, g.SecretSig = pk, secret, sig
+		}})
+	}
 	tp, cleanup := NewTestingProtocol(ctx, t, nil, nil)
 	defer cleanup()
 	svc := tp.Service
